@@ -107,7 +107,6 @@ func (l lang) sorted() []string {
 	return out
 }
 
-
 // langDiff returns a shortest sentence in a but not in b ("" , false if none).
 func langMinus(a, b lang) (string, bool) {
 	best, found := "", false
